@@ -323,6 +323,10 @@ SETTINGS = [
     ({'from_ref': 'other'}, 2),
     ({'from_ref': 'side'}, 1),
     ({'from_ref': 'nosuchref'}, 1),
+    # a value that is not a reference but names a path: a file with an unstaged edit, a directory, the whole work tree (F35)
+    ({'from_ref': '@edited'}, 2),
+    ({'from_ref': 'dir'}, 1),
+    ({'from_ref': '.'}, 1),
     # the same options through the environment and through .xvc/config.local.toml (git-ignored)
     ({'cfg': ['git.auto_commit=false', 'git.auto_stage=true'], 'via': 'env'}, 1),
     ({'cfg': ['git.use_git=false'], 'via': 'env'}, 1),
@@ -335,8 +339,10 @@ def gen_init_case(rng, chk):
     """`xvc init` in a git repository that carries user work"""
     ops = [o for o in gen_state(rng, chk) if not (o[0] == 'edit' and o[1] == '.gitignore')]
     chk.count('cmd:init')
-    chk.count('setting:default')
-    return {'ops': [list(o) for o in ops], 'cmd': ['init'], 'readonly': False, 'setting': {}}
+    # `xvc init` under the global switches too (F36: --skip-git was ignored by init)
+    setting = rng.choice([{}, {}, {'skip_git': True}, {'to_branch': 'newb'}])
+    chk.count('setting:' + (json.dumps(setting, sort_keys=True) if setting else 'default'))
+    return {'ops': [list(o) for o in ops], 'cmd': ['init'], 'readonly': False, 'setting': setting}
 
 
 def gen_case(rng, chk):
@@ -350,6 +356,9 @@ def gen_case(rng, chk):
         if x < 0:
             break
     setting = dict(s)
+    if setting.get('from_ref') == '@edited':
+        edited = [o[1] for o in ops if o[0] in ('edit', 'rm') and o[1] not in ('.gitignore',)]
+        setting['from_ref'] = edited[0] if edited else 't.txt'
     if any(o[0] in ('detach', 'branch') for o in ops) and setting.get('to_branch') == 'other' and ('branch', 'other') in ops:
         setting['to_branch'] = 'main'
     chk.count('cmd:' + ' '.join(cmd[:3 if cmd[0] == 'pipeline' and len(cmd) > 2 and cmd[1] == 'step' else 2]))
@@ -1086,6 +1095,10 @@ CORPUS = [
     {'ops': [['stage_new', 'new1.txt', 'n\n'], ['hook_fail']], 'cmd': ['file', 'track', 'data/d1.bin'], 'readonly': False, 'setting': {}},
     # F4 in git_checkout_ref when the ref does not exist
     {'ops': [['stage_mod', 'm.txt', 'changed\n']], 'cmd': ['file', 'list'], 'readonly': True, 'setting': {'from_ref': 'nosuchref'}},
+    # F35 (fixed): --from-ref with a value that names a path restored that path from the index
+    {'ops': [['edit', 't.txt', 't.txt\nunstaged edit\n']], 'cmd': ['file', 'list'], 'readonly': True, 'setting': {'from_ref': 't.txt'}},
+    {'ops': [['edit', 't.txt', 't.txt\nunstaged edit\n'], ['rm', 'm.txt'], ['stage_new', 'new1.txt', 'n\n']], 'cmd': ['file', 'track', 'data/d1.bin'],
+     'readonly': False, 'setting': {'from_ref': '.'}},
     # detached HEAD
     {'ops': [['detach'], ['stage_new', 'new1.txt', 'n\n']], 'cmd': ['pipeline', 'new', '--pipeline-name', 'p1'], 'readonly': False, 'setting': {}},
     # pathspec (fix: C15-pathspec.patch): user files whose names end in .gitignore / .xvcignore
